@@ -1410,6 +1410,30 @@ def m_map_values(interp, path, args, ret_ty, callee):
     return StructV("SymMapValues", [args[0]])
 
 
+@model(r"^<(map::|hash_map::|btree_map::)?Keys<.*> as Iterator>::cloned::<.*>$", "lazy cloned adaptor")
+def m_keys_cloned(interp, path, args, ret_ty, callee):
+    return args[0]
+
+
+@model(r"^<Cloned<(map::|hash_map::|btree_map::)?Keys<.*>> as Iterator>::collect::<Vec<.*>>$",
+       "the keys of the present slots in slot order (forks on presence)")
+def m_keys_collect(interp, path, args, ret_ty, callee):
+    it = args[0]
+    if it.kind != "struct" or it.ty != "SlotKeysIter":
+        raise Refuse("collect over %r" % (it,))
+    outs = []
+    work = [(path, 0, [])]
+    while work:
+        p, i, acc = work.pop()
+        if i == len(it.fields):
+            outs.append(Outcome(p, "ret", StructV(ret_ty or "Vec<?>", acc)))
+            continue
+        pres = it.fields[i].fields[2].term
+        for p2, tag in interp.fork(p, [(pres, "in"), (z3.Not(pres), "out")]):
+            work.append((p2, i + 1, acc + [it.fields[i].fields[0]] if tag == "in" else acc))
+    return outs
+
+
 @model(r"^<(map::|hash_map::|btree_map::)?Values<.*> as Iterator>::cloned::<.*>$", "lazy cloned adaptor")
 def m_values_cloned(interp, path, args, ret_ty, callee):
     return args[0]
@@ -2119,6 +2143,24 @@ def m_ne_default(interp, path, args, ret_ty, callee):
     outs = []
     for o in interp.do_call(path, None, None, target, args, "bool"):
         outs.append(Outcome(o.path, "ret", BoolV(z3.Not(o.value.term))) if o.kind == "ret" else o)
+    return outs
+
+
+@model(r"^(cmp::)?(min|max)::<(.+)>$", "std::cmp::min / max via the type's Ord::cmp (ties: min gives the first, max the second)")
+def m_cmp_minmax(interp, path, args, ret_ty, callee):
+    from .interp import _ConstRef
+    m = re.match(r"^(?:cmp::)?(min|max)::<(.+)>$", canon(callee))
+    op, t = m.group(1), m.group(2)
+    outs = []
+    for o in interp.call_named(path, "<%s as Ord>::cmp" % t, [_ConstRef("&" + t, args[0]), _ConstRef("&" + t, args[1])], "Ordering"):
+        if o.kind != "ret":
+            outs.append(o)
+            continue
+        d = o.value.discr
+        greater = d == 1
+        pick_second = greater if op == "min" else z3.Not(greater)
+        for p2, tag in interp.fork(o.path, [(pick_second, "second"), (z3.Not(pick_second), "first")]):
+            outs.append(Outcome(p2, "ret", args[1] if tag == "second" else args[0]))
     return outs
 
 
